@@ -77,6 +77,9 @@ func ReadBlockFrom(r io.Reader) (int64, [][]string, error) {
 
 func ValidateBlockBytes(b []byte) (err error) {
 	var off int
+	if len(b) < 4 {
+		return fmt.Errorf("invalid block")
+	}
 	n := int(binary.BigEndian.Uint32(b))
 	off += 4
 	for i := 0; i < n; i++ {
